@@ -436,8 +436,12 @@ TEMPLATES = {
     7: {'M+grandchild': 'aX ac dc dY ce ef',
         'M+two-children': 'aX ac dc dY ce cf',
         'collider-chain-into-child-of-Y': 'aX ac bc bd Yd ce',
-        'M+child+confounder': 'aX ac dc dY ce fX fY'},
+        'M+child+confounder': 'aX ac dc dY ce fX fY',
+        # a collider with FOUR parents (every pair of them must be married, not only neighbours in some listing order)
+        'four-parent-collider': 'ae be ce de aX cY'},
     8: {'double-M+child': 'aX ac bc bd fd fY ce',
+        'five-parent-collider': 'af bf cf df ef aX cY',
+        'four-parent-collider+child': 'ae be ce de aX cY ef',
         'M+child+grandchild+confounder': 'aX ac bc bY ce ef gX gY',
         'M+child+two-confounders': 'aX ac dc dY ce fX fY bX bY'},
 }
